@@ -67,6 +67,7 @@ package webdoc
 //@   fresh_assigns webdoc.Text.*, webdoc.BaseElement.*, webdoc.Table.*, webdoc.ElementAction.*, maps, elems(string), elems(ref), cell(Ref), cell(Slice)
 //@   ensures #rows-kept rowKept(db.document.Elements, old(db.document.Elements)) && rowKept(db.textBuilder.textNodes, old(db.textBuilder.textNodes)) && rowKept(db.actionStack, old(db.actionStack)) && db.document == old(db.document) && db.textBuilder == old(db.textBuilder)
 //@   ensures [C02,C07] #only-text-appended onlyTextAppended(db)
+//@   ensures [C03] #inline-start-keeps-flush implies(old(domutil.GetDisplayStyle(e)) == "inline", db.flush == old(db.flush))
 //@   requires wfBuilder(db) && e != nil
 //@   ensures wfBuilder(db)
 //@   ensures [C03] #start-never-flushes len(db.document.Elements) == old(len(db.document.Elements)) && len(db.actionStack) == old(len(db.actionStack)) + 1
@@ -77,6 +78,7 @@ package webdoc
 //@   fresh_assigns webdoc.Text.*, webdoc.BaseElement.*, webdoc.Table.*, webdoc.ElementAction.*, maps, elems(string), elems(ref), cell(Ref), cell(Slice)
 //@   ensures #rows-kept rowKept(db.document.Elements, old(db.document.Elements)) && rowKept(db.textBuilder.textNodes, old(db.textBuilder.textNodes)) && rowKept(db.actionStack, old(db.actionStack)) && db.document == old(db.document) && db.textBuilder == old(db.textBuilder)
 //@   ensures [C02,C07] #only-text-appended onlyTextAppended(db)
+//@   ensures [C03] #end-flushes-only-if-requested implies(old(len(db.actionStack)) > 0 && !old(db.flush) && !old(db.actionStack[len(db.actionStack)-1].Flush), len(db.document.Elements) == old(len(db.document.Elements)) && db.flush == old(db.flush))
 //@   requires wfBuilder(db)
 //@   ensures wfBuilder(db)
 //@   ensures [C01] #pop-is-guarded len(db.actionStack) == old(len(db.actionStack)) - 1 || (old(len(db.actionStack)) == 0 && len(db.actionStack) == 0)
@@ -87,6 +89,7 @@ package webdoc
 //@   fresh_assigns webdoc.Text.*, webdoc.BaseElement.*, webdoc.Table.*, webdoc.ElementAction.*, maps, elems(string), elems(ref), cell(Ref), cell(Slice)
 //@   ensures #rows-kept rowKept(db.document.Elements, old(db.document.Elements)) && rowKept(db.textBuilder.textNodes, old(db.textBuilder.textNodes)) && rowKept(db.actionStack, old(db.actionStack)) && db.document == old(db.document) && db.textBuilder == old(db.textBuilder)
 //@   ensures [C02,C07] #only-text-appended onlyTextAppended(db)
+//@   ensures [C03] #text-clears-flush-request !db.flush
 //@   requires wfBuilder(db) && canAdd(db.textBuilder.textNodes, textNode) && inTreeOf(db.textBuilder, textNode)
 //@   ensures wfBuilder(db)
 //@   ensures [C03] #flush-only-if-pending implies(!old(db.flush), len(db.document.Elements) == old(len(db.document.Elements)))
@@ -97,6 +100,7 @@ package webdoc
 //@   fresh_assigns webdoc.Text.*, webdoc.BaseElement.*, webdoc.Table.*, webdoc.ElementAction.*, maps, elems(string), elems(ref), cell(Ref), cell(Slice)
 //@   ensures #rows-kept rowKept(db.document.Elements, old(db.document.Elements)) && rowKept(db.textBuilder.textNodes, old(db.textBuilder.textNodes)) && rowKept(db.actionStack, old(db.actionStack)) && db.document == old(db.document) && db.textBuilder == old(db.textBuilder)
 //@   ensures [C02,C07] #only-text-appended onlyTextAppended(db)
+//@   ensures [C03] #linebreak-never-requests-flush !db.flush
 //@   requires wfBuilder(db) && canAdd(db.textBuilder.textNodes, br) && inTreeOf(db.textBuilder, br)
 //@   ensures wfBuilder(db)
 //@   ensures [C03] #flush-only-if-pending implies(!old(db.flush), len(db.document.Elements) == old(len(db.document.Elements)))
@@ -171,3 +175,9 @@ package webdoc
 //@   ensures [C02] #window-consumed tb.firstNode == len(tb.textNodes)
 //@   ensures [C01,C02] #window result == nil || (fresh(result) && wfText(result) && result.Start == old(tb.firstNode) && result.End == len(tb.textNodes))
 //@   ensures forall(i, 0 <= i && i < len(tb.textNodes), tb.textNodes[i] == old(tb.textNodes[i]))
+
+// C03: an element rendered inline never requests a flush of the pending text block.
+//@ func GetActionForElement(element)
+//@   requires element != nil
+//@   fresh_assigns elems(string), maps, webdoc.ElementAction.*
+//@   ensures [C03] #inline-never-flushes implies(old(domutil.GetDisplayStyle(element)) == "inline" || old(domutil.GetDisplayStyle(element)) == "none", !result.Flush)
